@@ -14,7 +14,7 @@ OPS = ['<', '<=', '==', '!=', '>', '>=']
 def pyop(op, a, b):
     return {'<': a < b, '<=': a <= b, '==': a == b, '!=': a != b, '>': a > b, '>=': a >= b}[op]
 
-BUILDS = ['raw', 'int_resize_raw', 'int_resize_equal', 'like_int', 'u64list_raw', 'raw_rejected_write']
+BUILDS = ['raw', 'int_resize_raw', 'int_resize_equal', 'like_int', 'u64list_raw', 'raw_rejected_write', 'int_resize_nint_raw']
 def build(fx, np, s, nw, nf, codes, shape=None, how='raw'):
     """an object holding the given raw codes, reached through different histories (the hidden value type differs: an object built
     from integers keeps an integer value type until a write resets it)"""
@@ -37,8 +37,10 @@ def build(fx, np, s, nw, nf, codes, shape=None, how='raw'):
     if how == 'like_int':
         tmpl = fx.Fxp(zero, s, nw, 0)
         return fx.Fxp(codes if shape is None else np.array(codes).reshape(shape), like=tmpl, n_frac=nf, raw=True)
-    x = fx.Fxp(zero, s, nw, 0); x.resize(s, nw, nf)
-    if how == 'int_resize_raw': x.set_val(codes if shape is None else np.array(codes).reshape(shape), raw=True)
+    x = fx.Fxp(zero, s, nw, 0)
+    if how == 'int_resize_nint_raw': x.resize(n_word=nw, n_int=nw - nf - (1 if s else 0))       # (the fraction length follows from the other two sizes)
+    else: x.resize(s, nw, nf)
+    if how in ('int_resize_raw', 'int_resize_nint_raw'): x.set_val(codes if shape is None else np.array(codes).reshape(shape), raw=True)
     else: x.equal(A.mk(fx, np, s, nw, nf, codes, shape=shape))
     return x
 
